@@ -121,6 +121,9 @@ def upper(s):
 
 def names(r):
     """Return the available names as a set in the Record otherwise ['UnknownRecord']."""
+    if isinstance(r, WrappedRecord):
+        # (the compiled selector hands out wrapped records: a grouped record has to be recognised through the wrapper)
+        r = r.record
     if isinstance(r, GroupedRecord):
         return set(sub_record._desc.name for sub_record in r.records)
     if isinstance(r, (Record, WrappedRecord)):
